@@ -75,4 +75,6 @@ def model_value(model, e):
         return False
     if z3.is_rational_value(v):
         return float(v.numerator_as_long()) / float(v.denominator_as_long())
+    if z3.is_string_value(v):
+        return v.as_string()
     return str(v)
